@@ -540,7 +540,9 @@ func c22MutateOnce(r *rand.Rand, text string, heavy bool) (string, string) {
 		case 1:
 			toks[i] = strings.Repeat("(", n/8) + toks[i]
 		case 2:
-			toks[i] = strings.Repeat(toks[i]+" ", n/16)
+			// at most 120 repetitions: k nested quantifiers (`a * * * …`) cost time and memory cubic in k
+			// (k = 560: 2 GB, 9 s; k = 1000 would be ~12 GB), which would only produce time-outs here
+			toks[i] = strings.Repeat(toks[i]+" ", 2+r.Intn(119))
 		case 3:
 			toks[i] = toks[i] + " " + strings.Repeat("x? ", 8+r.Intn(12)) // exponential rule expansion
 		default:
@@ -1442,7 +1444,7 @@ func c22(c *Ctx) {
 	for _, b := range crashOrder {
 		ci := crashes[b]
 		text := ci.input.Text
-		if len(text) < 40000 {
+		if len(text) < 40000 && ci.res.CrashKind != "timeout" {
 			text = c22Shrink(shrinker, text, func(r c22Res) bool { return r.CrashKind != "" && c22Bucket(r) == b }, c.N(120, 400))
 		}
 		where := ci.res.Where
@@ -1522,7 +1524,7 @@ func c22Shrink(w *c22Worker, text string, same func(c22Res) bool, budget int) st
 			return false
 		}
 		budget--
-		return same(w.run(-2, c22Path, t, 40*time.Second))
+		return same(w.run(-2, c22Path, t, 20*time.Second))
 	}
 	pass := func(parts []string, sep string) []string {
 		for chunk := len(parts) / 2; chunk >= 1; chunk /= 2 {
